@@ -74,8 +74,8 @@ claimed = {
    technique="contract-based deductive verification (own VC generator over go/ssa; floats as SMT FloatingPoint; z3/cvc5) + bounded stand-in for the unit tokeniser",
    design="5/C04"),
  "C02": dict(
-   text="Deductive proof over the real code of the reader's per-line mechanisms: parseKeyValueLine (against the format's rune-level key rule kvScan, with soundness and ASCII completeness), splitField, the in-place configuration index of Result (ConfigIndex, ensureConfig, deleteConfig, SetConfig, GetConfig: representation invariant, abstract view, slot reuse without aliasing), Result.Clone (deep equality and freshness of every byte slice), Reader.Reset (queue, error and file configuration wiped, unit metadata kept) and intern — for all inputs, with safety (no panic) and termination obligations on every loop.  Not covered deductively: Scan's line loop as a fold over whole inputs, parseBenchmarkLine/parseUnitLine, Files.",
-   note="Trusted: lib specs of utf8.DecodeRune, unicode.IsSpace/IsUpper/IsLower (exact on ASCII/Latin-1), bufio.NewScanner; interior pointers passed to contract functions are modelled by copy-in/copy-out; bufio.Scanner termination.",
+   text="Deductive proof over the real code of the reader's per-line mechanisms: parseKeyValueLine (against the format's rune-level key rule kvScan, with soundness and ASCII completeness), splitField, the in-place configuration index of Result (ConfigIndex, ensureConfig, deleteConfig, SetConfig, GetConfig: representation invariant, abstract view, slot reuse without aliasing), Result.Clone (deep equality and freshness of every byte slice), Reader.Reset (queue, error and file configuration wiped, unit metadata kept), intern, and the line loop itself: Reader.Scan keeps the reader's representation invariants across every line (well-formed, unaliased configuration index; interning table; unit table), never indexes or slices out of range, stops for good once an error is recorded and reports a record only when one is queued; parseUnitLine keeps the unit table keyed by the normalised unit of each entry and only ever adds entries; isUnitLine — for all inputs, with safety (no panic) obligations everywhere and termination obligations on every loop except the scanner-driven ones.  Not covered deductively: Scan as a fold over whole inputs (which record follows which line), Files.",
+   note="Trusted: lib specs of utf8.DecodeRune, unicode.IsSpace/IsUpper/IsLower (exact on ASCII/Latin-1), bufio.NewScanner; interior pointers passed to contract functions are modelled by copy-in/copy-out; a pointer to the reader's own result boxed into the queue is an opaque non-nil record; bufio.Scanner is unconstrained (termination of the line loop rests on it); the line counter is assumed not to overflow.",
    technique="contract-based deductive verification (own VC generator over go/ssa, loop invariants, modular calls; z3/cvc5)",
    design="5/C02"),
  "C03": dict(
